@@ -257,6 +257,10 @@ func runCheck(o *checkOpts) *CheckReport {
 					AssertTO:      time.Duration(optInt(hd.Opts, o.tier, "assertto", 60)) * time.Second,
 					MaxWall:       time.Duration(optInt(hd.Opts, o.tier, "wall", map[string]int{"quick": 240, "thorough": 1500}[o.tier])) * time.Second,
 					CrossEach:     optInt(hd.Opts, o.tier, "cross", map[string]int{"quick": 0, "thorough": 0}[o.tier]),
+					Sched:         optInt(hd.Opts, o.tier, "sched", 0) != 0,
+					Race:          optInt(hd.Opts, o.tier, "race", 0) != 0,
+					MaxPreempt:    optInt(hd.Opts, o.tier, "preempt", map[string]int{"quick": 1, "thorough": 2}[o.tier]),
+					MaxGoroutines: optInt(hd.Opts, o.tier, "goroutines", 24),
 				}
 				hr := newHarnessResult(name)
 				mu.Lock()
